@@ -206,8 +206,8 @@ func (cg *CallGraph) PathString(path []*ssa.Function) string {
 var dynamicTable = map[string][]string{
 	"limitReader.Read|invoke io.Reader.Read":              {"msgReader.read"},
 	"trimLastFourBytesWriter.Write|invoke io.Writer.Write": {"msgWriter.write"},
-	"Conn.write|invoke io.WriteCloser.Write":              {"msgWriter.Write"},
-	"Conn.write|invoke io.WriteCloser.Close":              {"msgWriter.Close"},
+	"Conn.write|invoke io.WriteCloser.Write":              {"msgWriterHandle.Write", "msgWriter.Write"}, // the handle forwards statically
+	"Conn.write|invoke io.WriteCloser.Close":              {"msgWriterHandle.Close", "msgWriter.Close"},
 	"netConn.read|invoke io.Reader.Read":                  {"msgReader.Read"},
 	"util.ReaderFunc.Read|dyn":                            {"msgReader.read"},
 	"util.WriterFunc.Write|dyn":                           {"msgWriter.write", "wsjson.write$1"},
